@@ -99,6 +99,29 @@ def H5(script_a=(), script_ac=()):
     )
 
 
+def H6():
+    """fan-out: one producer read by two consumers with different windows (ring-buffer sizing per producer)"""
+    return spec(
+        {"a": node(16, 1), "b": node(8, 2), "c": node(4, 2)},
+        [edge("a", "b", window=1, comm=1), edge("a", "c", window=3, comm=1), edge("b", "c", window=2, comm=1)],
+        "c",
+    )
+
+
+def H6b():
+    """fan-out with the demanding reader first"""
+    return spec(
+        {"a": node(16, 1), "c": node(4, 2), "b": node(8, 2)},
+        [edge("a", "c", window=3, comm=1), edge("a", "b", window=1, comm=1), edge("b", "c", window=2, comm=1)],
+        "c",
+    )
+
+
+def H7():
+    """rate ratio 16:1 -> more than ten vertices (slots) of one kind per partition"""
+    return spec({"a": node(64, 0, script=()), "b": node(4, 2)}, [edge("a", "b", window=3, comm=0), edge("b", "a", skip=True, comm=1)], "b")
+
+
 # ---- call histories ----------------------------------------------------------------------------------
 def episode_forms(kmax=2, override=True):
     forms = []
@@ -133,7 +156,7 @@ def histories(n_eps=2, kmax=2, override=True):
 
 
 def hist_name(h):
-    m = {"reset": "R", "step": "s", "step_override": "o", "run": "r", "stop": "."}
+    m = {"reset": "R", "step": "s", "step_override": "o", "run": "r", "stop": ".", "reset_carry": "C"}
     return "".join(m[o[0]] for o in h)
 
 
@@ -162,6 +185,14 @@ def fasync_bases():
                             continue
                         s = spec({"a": node(ra, 1, sched), "b": node(rb, 2 if rb <= 8 else 1, sched, advance=adv)}, [edge("a", "b", bl, ji, sk, w, 1)], "b")
                         bases.append((f"chain.{'B' if bl else 'N'}{ji[0]}{'s' if sk else ''}.w{w}.{ra}-{rb}.{sched[0]}{'.adv' if adv else ''}", s))
+    # chain with a large *expected* communication delay: the consumer's phase lies more than one consumer period plus one
+    # producer period after the producer's (phase arithmetic of blocking connections, BUFFER's expected arrival), while the
+    # sampled delay is either small (messages arrive long before they are expected) or equally large
+    for (bl, ji, sk) in _conn_policies():
+        for (ra, rb) in [(16, 16), (32, 8), (8, 16)]:
+            for (nom, exp) in [(1, 12), (12, 12), (1, 24)]:
+                s = spec({"a": node(ra, 1), "b": node(rb, 1)}, [{"o": "a", "n": "b", "blocking": bl, "jitter": ji, "skip": sk, "window": 2, "comm": d(nom, (), exp)}], "b")
+                bases.append((f"chainX.{'B' if bl else 'N'}{ji[0]}{'s' if sk else ''}.{ra}-{rb}.d{nom}e{exp}", s))
     # 2-cycle a <-> b, back edge skipped; supervisor either node
     for (bl, ji, sk) in _conn_policies(allow_skip=False):
         for (bl2, ji2, _) in _conn_policies(force_skip=True):
